@@ -18,22 +18,15 @@ BASE_NOTE = ("Trusted: Kani/CBMC/CaDiCaL; tokio and tokio-util replaced by the d
 
 # property -> (claim text, design_ref)
 CLAIMS = {
-    "C01": ("Solver verdict, for all flag/port/credit values and payloads up to the stated lengths, that the dispatcher's "
-            "data-path steps (handle_event(SendData), handle_received_msg(Data)) pass payload bytes and first/last flags "
-            "through unchanged to exactly the addressed port and reject data for ports that are not connected or already "
-            "finished. Sender-side chunking and receiver-side reassembly harnesses exist but are only registered where they "
-            "verify within the cap (see evidence); end-to-end exactly-once delivery is a composition argument over these "
-            "atomic steps and FIFO queues, not a solver result.", "DESIGN.md 0, 4 C01"),
+    "C01": ("Solver verdict, for all flag/port/credit values and payloads up to the stated lengths, that (a) the dispatcher's data-path steps (handle_event(SendData), handle_received_msg(Data)) pass payload bytes and first/last flags through unchanged to exactly the addressed port and reject data for ports that are not connected or already finished, and (b) Sender::try_send splits a message into chunks of at most the advertised chunk size, marks first/last exactly on the first/final chunk, preserves bytes and order, and on failure queues nothing or an unfinished prefix. The receiving coroutines (recv_any / recv_chunk) and the async send paths are NOT decided: one poll of them does not finish symbolic execution (DESIGN.md 0.6); end-to-end exactly-once delivery is a composition argument over the decided steps and FIFO queues, not a solver result.",
+            'DESIGN.md 0, 4 C01'),
     "C02": ("Solver verdict over all 32-bit values for every credit-moving step (use_credits, start_return/return_flush, "
             "provide, try_request/request, AssignedCredits take/drop) and for the dispatcher's PortCredits/ReturnCredits "
             "steps: each step moves exactly the amount it accounts for, never exceeds the advertised buffer, never returns "
             "more than was consumed. The whole-life bound follows by induction over these atomic steps (single dispatcher "
             "task); the induction itself is a paper argument.", "DESIGN.md 4 C02"),
-    "C03": ("Safety core of liveness, decided by the solver for all 32-bit credit values: no credit is created or lost by any "
-            "credit kernel, provide/close wake every registered waiter, a request that found too little credit is registered "
-            "as waiter under the same lock and completes on the next poll once enough was granted, and after any "
-            "start_return the receiver holds back less than the threshold so an idle receiver leaves the sender >= 4 credits. "
-            "The fairness part of liveness (eventual completion under a fair scheduler) is not decided.", "DESIGN.md 4 C03"),
+    "C03": ('Safety core of liveness, decided by the solver: no credit is created or lost by any credit kernel (full 32-bit ranges) nor by Sender::try_send on any outcome incl. a full event queue (the leak found there was repaired, see known_findings.txt), provide/close and PortNumber::drop wake every registered waiter (a cancelled waiter does not absorb the wake-up), after any start_return the receiver holds back less than the threshold so an idle receiver leaves the sender >= 4 credits, and every port message Sender::connect composes carries at least one port when 4 credits are available. The async paths (send, connect loop, request polling) and the fairness part of liveness are not decided.',
+            'DESIGN.md 4 C03'),
     "C05": ("Pairing kernels only: the dispatcher's Accepted step hands the accepting side a sender/receiver pair for exactly "
             "(local port, requested remote port) and answers the peer with exactly that pair of numbers (solver verdict for all "
             "port numbers). The rch layer (serde callbacks, forwarding, interlock) is outside.", "DESIGN.md 4 C05"),
@@ -45,16 +38,10 @@ CLAIMS = {
             "port number iff all four conditions hold; each local drop/close event and each remote finish/close "
             "notification sets exactly its own flag, emits exactly its frame and releases iff all four; should_terminate "
             "equals the documented formula. Task reclamation and the two-sided Goodbye exchange are outside.", "DESIGN.md 4 C07"),
-    "C08": ("No-panic and protocol-error classification, decided by the solver (Kani's panic/overflow/bounds checks on) for "
-            "one dispatcher step per message kind from dispatcher states with symbolic flags: notifications and data for "
-            "unknown, connecting, finished or already-closed ports, repeated notifications, over-full listener queues, "
-            "Reset/Hello, credit overflow - all end in ChMuxError::Protocol/Reset with no state change. Frame decoding of "
-            "well-formed frames is under C09. Arbitrary byte strings and PortData frames are not registered (too heavy); "
-            "known finding F5 concerns the latter.", "DESIGN.md 4 C08"),
-    "C09": ("Differential check against an independently written reference layout of protocol v3: for every message kind, "
-            "with every field and flag symbolic over its full range, the real encoder's bytes equal the reference bytes and "
-            "the real decoder accepts the reference bytes and yields the same fields (PortData as a family 0..2 ports, ids "
-            "present/absent = v2 form); ids are emitted in OpenPort iff the peer announced version >= 3.", "DESIGN.md 4 C09"),
+    "C08": ("No-panic and protocol-error classification, decided by the solver (Kani's panic/overflow/bounds checks on) for one dispatcher step per message kind from dispatcher states with symbolic flags: notifications and data for unknown, connecting, finished or already-closed ports, repeated notifications, over-full listener queues, Reset/Hello, credit overflow - all end in ChMuxError::Protocol/Reset with no state change; a newly created port polices receiving with exactly the locally advertised buffer. Frame decoding of well-formed frames is under C09. Arbitrary byte strings and PortData frames are not registered (too heavy).",
+            'DESIGN.md 4 C08'),
+    "C09": ("Differential check against an independently written reference layout of protocol v3: for every message kind, with every field and flag symbolic over its full range, the real encoder's bytes equal the reference bytes and the real decoder accepts the reference bytes and yields the same fields (PortData as a family 0..2 ports, ids present/absent = v2 form); ids are emitted in OpenPort iff the peer announced version >= 3; every port message the sender composes fits the frame length limit the peer derives from its advertised chunk size (all u32 chunk sizes and credit values; the overrun found there was repaired, see known_findings.txt).",
+            'DESIGN.md 4 C09'),
     "C10": ("Exactly-once resolution kernels, decided per step for all port numbers/ids/flags: ConnectReq either registers "
             "the port and emits one OpenPort or is refused locally with Rejected; PortOpened/Rejected resolve exactly the "
             "responder registered under that client port once (repeat, connected or unknown port = Protocol error); OpenPort "
@@ -68,16 +55,19 @@ CLAIMS = {
             "observability are outside.", "DESIGN.md 4 C11"),
 }
 
+CLAIMS['C13'] = ('One-step solver verdict for ObservableVec and ObservableVecDeque: for every mutator of the public API (push/pop/insert/remove/swap_remove*/get_mut/iter_mut/fill/resize/truncate/clear/retain/shrink_to_fit/done) from contents of length 0..=3 with symbolic elements and values, the events the mutator hands to robs::send_event, applied in order by the real Mirrored*Inner::handle_event to a mirror that equalled the contents, leave the mirror equal to the collection, and done is reported iff done() was called. Lengths, indices and retain predicates are concrete per harness (families), element values symbolic. Hash map/set, list, the event transport (broadcast/mpsc/codecs/mirror tasks), incremental subscriptions and remote mirrors are not decided.', 'DESIGN.md 0.7, 4 C13')
+
+CLAIMS['C14'] = ('Detection kernels only: the real Mirrored{Vec,VecDeque}Inner::handle_event applies an index event iff the index is valid for the current contents and otherwise returns InvalidIndex(index) leaving the contents untouched; a push beyond max_size returns MaxSizeExceeded (solver verdict over contents of length 2, index 0..=4 resp. full usize where no memmove is involved). Lag markers, drop-before-done, connection failures and the mirror task that stores the error are not decided.', 'DESIGN.md 0.7, 4 C14')
+
+CLAIMS['C18'] = ('Accounting kernels only: io::Receiver::poll_read on a buffered multi-segment message delivers exactly min(first segment, read-buffer room, remaining announced size) bytes, in order, advances the counter by exactly that, keeps the rest of the message buffered and reports end of file once the announced size is reached (sized/unsized mode and all u64 counters symbolic); io::Sender::poll_shutdown of a sized sender succeeds iff exactly the fixed size was written, else UnexpectedEof. poll_write, the byte transport (rch::bin over chmux), size announcement of unsized channels and remote halves are not decided.', 'DESIGN.md 0.7, 4 C18')
+
 NOT_APPLICABLE = {
     "C04": "lives in serde codecs, spawn_blocking serialisation threads and mpsc forwarding tasks; cannot be encoded for the solver (threads, codec loops); the chmux-level root cause of its known loss is decided under C01",
     "C12": "macro-generated multi-task RPC; linearizability of concurrent histories has no single-step kernel and multi-task coroutine execution is out of reach for Kani",
     "C15": "behaviour is tokio's watch cell (replaced by a model here) plus two forwarding tasks; a harness would verify the model, not remoc",
     "C17": "protocol among >=3 interleaved tasks over typed channels; exclusion and deadlock freedom are interleaving properties, not encodable within reach",
-    "C13": "harnesses over ObservableVec + MirroredVecInner exist (kani/harness/c13_vec.rs) but are not registered: the local event path (rch::broadcast -> rch::mpsc -> model queues) did not verify within the time/memory cap on this machine; not claimed rather than reported as success",
-    "C14": "depends on the same robs/broadcast event path as C13, which is not within reach of the solver here; the mirror tasks themselves are spawned tasks (not encodable)",
-    "C16": "rch::broadcast::Sender::send spawns a re-admission task per lagging subscriber and the subscriber queues are rch::mpsc channels over several tokio primitives; a one-step harness did not fit the cap; not claimed",
-    "C18": "rch::io sender/receiver state machines are driven through boxed futures over rch::bin/base channels (serde, spawned tasks); no synchronous kernel could be isolated within the time available; not claimed",
-    "C20": "Handle::{into_inner,as_ref,as_mut} go through tokio RwLock owned guards and the AnyStorage hash map keyed by random uuids; not built within the time available; not claimed",
+    "C16": "rch::broadcast::Sender::send fans out through rch::mpsc channels (several tokio primitives each) and spawns a re-admission task per lagging subscriber; the emitted value travels inside nested enums whose discriminants CBMC no longer sees as constant (measured: 500 k symex steps for a send without subscribers, DESIGN.md 0.6), and lag/re-admission is an interleaving of tasks; no harness fits the cap, not claimed",
+    "C20": "Handle::{into_inner,as_ref,as_mut} are coroutines over tokio RwLock owned guards and Box<dyn Any> down-casts; Kani 0.68 has no definition for <dyn Any>::is/downcast (measured: 'missing_definition' failure) and the release/confinement parts live in serde impls and spawned tasks; not encodable, not claimed",
     "C19": "same reason as C12: generated multi-task code racing execution against closed(); no synchronous kernel",
 }
 
